@@ -38,7 +38,9 @@ RULE = ("per transport, EXHAUSTIVE event sequences to depth 5 (quick) / 6 (thoro
         "CoAP whole sessions through the real CoAPPairing / CoAPHomeKitConnection (stream coap-session: real pair-verify against the reference accessory, database fetch, only aiocoap's Context replaced; "
         "histories over {get / put / subscribe / unsubscribe / list accessories / populate / list_pairings / remove_pairing / identify, events of one or two records, replays of every recorded event and response datagram of this and "
         "the previous session, corrupted / 4.04 / lost responses, lost requests, time-outs, cancellations, zeroconf re-discovery at the same / a new address / a new port / gone / new configuration number, reconnect_soon, connect, "
-        "do_pair_verify on the live connection, close}; every session-level operation and every pair of them in the middle of a session, then replays + random histories; observed on the wire by trial decryption under the accessory's "
+        "do_pair_verify on the live connection, close; event datagrams rendered CONCURRENTLY, one task per datagram started in arrival order as aiocoap does, while answers take time / are kept by the network until later events have arrived, "
+        "events naming characteristics the controller's copy of the database knows and ones the accessory gained since, database refreshes / reads / writes / pair-verify in flight while events arrive, the same datagram handed over twice at once}; "
+        "every session-level operation and every pair of them in the middle of a session, then replays + random histories; observed on the wire by trial decryption under the accessory's "
         "keys, at the cipher, and at the listeners: per key no nonce twice, responses / events authenticated at most once and in the accessory's order - a new pair-verify legitimately restarts); "
         "IP pairing-level operations in the middle of a session (ip-session tokens s u L g n Z z: subscribe / unsubscribe / database / read / ensure_connection / zeroconf updates, each and each pair followed by a replay of every earlier frame); "
         "BLE multi-session histories with the link lost (disconnected callback) or the pairing closed between exchanges; "
@@ -1610,6 +1612,8 @@ def run_coap_event_resource(loop, cts):
 # ---------------------------------------------------------------- CoAP, whole sessions through the real CoAPPairing
 CS_CHARS = (10, 11, 12)   # three int32 characteristics (read / write / events)
 CS_PAIRINGS = 20          # the pairings characteristic (service 0x55, type 0x50)
+CS_NEW_CHAR = 13          # a fourth int32 characteristic the accessory GAINS in service 1 (firmware update, token U)
+CS_NEW_SVC_CHAR = 30      # .. and one in a service (iid 3) it gains at the same time
 CS_EV_BASE = 100000       # an event carries CS_EV_BASE + its serial number in the accessory's log as value
 
 
@@ -1620,7 +1624,7 @@ def _t8(tag, val):
     return b"".join(bytes([tag, len(val[o:o + 255])]) + val[o:o + 255] for o in range(0, len(val), 255))
 
 
-def _cs_database():
+def _cs_database(upgraded=False):
     """the attribute database of the accessory as the TLV8 body of a HAP-over-CoAP database read (written out here, not
     produced by the library)"""
     def char(typ, iid, props, gatt):
@@ -1629,12 +1633,17 @@ def _cs_database():
 
     def svc(typ, iid, chars):
         return _t8(0x15, _t8(0x07, struct.pack("<H", iid)) + _t8(0x06, bytes([typ])) + _t8(0x14, b"\x00\x00".join(chars)))
-    light = svc(0x43, 1, [char(0xCE, i, 0x10 | 0x20 | 0x80, 0x10) for i in CS_CHARS])
+    light = svc(0x43, 1, [char(0xCE, i, 0x10 | 0x20 | 0x80, 0x10) for i in CS_CHARS + ((CS_NEW_CHAR,) if upgraded else ())])
     pairings = svc(0x55, 2, [char(0x50, CS_PAIRINGS, 0x10 | 0x20, 0x1B)])
-    return _t8(0x18, _t8(0x19, _t8(0x1A, struct.pack("<H", 1)) + _t8(0x16, b"\x00\x00".join([light, pairings]))))
+    more = [svc(0x43, 3, [char(0xCE, CS_NEW_SVC_CHAR, 0x10 | 0x20 | 0x80, 0x10)])] if upgraded else []
+    return _t8(0x18, _t8(0x19, _t8(0x1A, struct.pack("<H", 1)) + _t8(0x16, b"\x00\x00".join([light, pairings] + more))))
 
 
 CS_DATABASE = _cs_database()
+CS_DATABASE_UPGRADED = _cs_database(upgraded=True)  # after a firmware update: one more characteristic in service 1 and a new service 3
+# the records of an event datagram: K = the next of the three original characteristics, N / M = the characteristics the
+# accessory gained (unknown to a controller whose copy of the database is older), n / k = N / K with an empty body
+CS_EVENT_SHAPES = ["K", "KK", "N", "NK", "KN", "M", "MNK", "KKN", "nK", "NM", "kK", "Kk"]
 
 
 def run_coap_session(loop, evs, seed=0):
@@ -1657,6 +1666,14 @@ def run_coap_session(loop, evs, seed=0):
       session      D0 zeroconf reports the accessory again at the same endpoint ; D1 at a new address ; D2 at a new port ;
                    D3 reports it gone ; D4 reports a higher configuration number ; Z connection.reconnect_soon() ;
                    V connection.connect() ; W connection.do_pair_verify() on the live connection ; K pairing.close()
+      concurrency  aiocoap renders every incoming request in a task of its own and a response takes time to arrive:
+                   f<s> the accessory emits an event whose records have shape CS_EVENT_SHAPES[s] (original characteristics and
+                   characteristics it gained since the controller read its database) and the network hands it to the event
+                   resource in a NEW TASK, the history goes on without waiting for it ; d<s> the same, waited for ; b<k> event
+                   number k of the session (again) in a new task ; U the accessory gains a characteristic and a service
+                   (implied by the first event that names one of them) ; y<ms> from now on every answer of the accessory
+                   arrives <ms> ms after the request ; H answers are kept by the network until h (all of them arrive, in order) ;
+                   t<ms> <ms> ms pass
     The record: 'log' = in order, every datagram the controller put on the wire (session and nonce found by trial
     decryption under the keys the ACCESSORY derived), every AEAD operation of the controller's CoAP code (key bytes,
     nonce, ciphertext, authenticated or not) and every delivery by the network; 'heard' = what reached the listeners;
@@ -1676,8 +1693,8 @@ def run_coap_session(loop, evs, seed=0):
     log, stats = rec["log"], rec["stats"]
     ident = refacc.Identity(rb)
     values = {i: 0 for i in CS_CHARS}
-    acc = {"verify": None, "cur": None, "serial": 0}
-    net = {"mod": None, "contexts": [], "delivery": 0}
+    acc = {"verify": None, "cur": None, "serial": 0, "upgraded": False}
+    net = {"mod": None, "contexts": [], "delivery": 0, "delay": 0.0, "hold": False, "held": [], "of_task": {}, "etasks": []}
 
     class SpyAead:
         """stands where the CoAP code constructs its ChaCha20Poly1305 objects: same cipher, every use recorded"""
@@ -1742,7 +1759,7 @@ def run_coap_session(loop, evs, seed=0):
             off += 7 + ln
             st, rbody = 0, b""
             if opcode == 0x09:
-                rbody = CS_DATABASE
+                rbody = CS_DATABASE_UPGRADED if acc["upgraded"] else CS_DATABASE
             elif opcode == 0x03 and iid in values:
                 rbody = _t8(0x01, struct.pack("<l", values[iid]))
             elif opcode == 0x03 and iid == CS_PAIRINGS:
@@ -1763,13 +1780,33 @@ def run_coap_session(loop, evs, seed=0):
         s["responses"].append(enc)
         return coapc.Code.CHANGED, enc
 
+    def upgrade():
+        if not acc["upgraded"]:
+            acc["upgraded"] = True
+            values[CS_NEW_CHAR] = values[CS_NEW_SVC_CHAR] = 0
+            stats["accessory gained a characteristic and a service"] += 1
+
     def emit(records):
+        """records: a number (that many of the original characteristics) or a shape of CS_EVENT_SHAPES"""
         s = acc["cur"]
         if s is None:
             return None
         serial = acc["serial"]
         acc["serial"] += 1
         body = _t8(0x01, struct.pack("<l", CS_EV_BASE + serial))
+        if isinstance(records, str):
+            if records.strip("Kk"):
+                upgrade()
+            pl = b""
+            for q, kind in enumerate(records):
+                iid = {"K": CS_CHARS[(serial + q) % 3], "k": CS_CHARS[(serial + q) % 3], "N": CS_NEW_CHAR, "n": CS_NEW_CHAR, "M": CS_NEW_SVC_CHAR}[kind]
+                b = b"" if kind in "nk" else body
+                pl += struct.pack("<BHH", 0, iid, len(b)) + b
+            enc = ChaCha20Poly1305(s["evt"]).encrypt(n_coap(len(s["events"])), pl, b"")
+            s["events"].append(enc)
+            s["serials"].append(serial)
+            stats["event datagrams naming a characteristic the accessory gained"] += bool(records.strip("Kk"))
+            return enc
         pl = b"".join(struct.pack("<BHH", 0, CS_CHARS[(serial + q) % 3], len(body)) + body for q in range(records))
         enc = ChaCha20Poly1305(s["evt"]).encrypt(n_coap(len(s["events"])), pl, b"")
         s["events"].append(enc)
@@ -1820,10 +1857,24 @@ def run_coap_session(loop, evs, seed=0):
                         if 0 <= i < len(src):
                             reply = (coapc.Code.CHANGED, src[i])
                             stats["response replaced by an earlier one"] += 1
-                if reply is not None:
-                    log.append(("deliver", "response"))
             if reply is not None:
-                fut.set_result(coapc.Message(code=reply[0], payload=reply[1]))
+                answer = coapc.Message(code=reply[0], payload=reply[1])
+
+                def arrive(secured=(path == "")):
+                    if fut.done():
+                        stats["answer arrived after its caller had given up"] += 1
+                        return
+                    if secured:
+                        log.append(("deliver", "response"))
+                    fut.set_result(answer)
+                if net["hold"]:
+                    net["held"].append(arrive)
+                    stats["answers kept by the network for a while"] += 1
+                elif net["delay"]:
+                    loop.call_later(net["delay"], arrive)
+                    stats["answers that took time to arrive"] += 1
+                else:
+                    arrive()
             return types.SimpleNamespace(response=fut)
 
         async def shutdown(self):
@@ -1846,12 +1897,21 @@ def run_coap_session(loop, evs, seed=0):
             stats["event datagram with nowhere to go"] += 1
             return
         net["delivery"] += 1
+        net["of_task"][asyncio.current_task()] = net["delivery"]
         log.append(("deliver", "event"))
         try:
             out = await res.render_put(coapc.Message(code=coapc.Code.PUT, payload=datagram))
             stats["event answered " + str(out.code)] += 1
         except Exception as e:  # noqa: BLE001
             stats["render_put raised " + type(e).__name__] += 1
+
+    def deliver_event_task(datagram):
+        """.. the way aiocoap does it: every incoming request is rendered in a task of its own; the tasks start in the
+        order of arrival and nobody waits for one before the next datagram is handed over"""
+        stats["event datagrams rendered in a task of their own"] += 1
+        if any(not t.done() for t in net["etasks"]):
+            stats["event datagrams arriving while an earlier one is still being rendered"] += 1
+        net["etasks"].append(asyncio.ensure_future(deliver_event(datagram)))
 
     async def main():
         ctrl = mock.MagicMock()
@@ -1861,10 +1921,14 @@ def run_coap_session(loop, evs, seed=0):
             p = CoAPPairing(ctrl, pd)
 
             def listener(ev):
+                dno = net["of_task"].get(asyncio.current_task(), net["delivery"])
                 for val in ev.values():
                     v = val.get("value") if isinstance(val, dict) else None
+                    if isinstance(v, (bytes, bytearray)) and len(v) == 4:
+                        # a characteristic the controller's copy of the database does not have: the value as sent
+                        v = struct.unpack("<l", bytes(v))[0]
                     if isinstance(v, int) and not isinstance(v, bool) and v >= CS_EV_BASE:
-                        rec["heard"].append((net["delivery"], v - CS_EV_BASE))
+                        rec["heard"].append((dno, v - CS_EV_BASE))
             p.dispatcher_connect(listener)
             # set-up on a quiet network: connect (pair-verify, database) and the pairing's accessory model
             await p.list_accessories_and_characteristics()
@@ -1916,6 +1980,26 @@ def run_coap_session(loop, evs, seed=0):
                     await deliver_event(emit(2 if k == "E" else 1))
                 elif k == "w":
                     emit(1)
+                elif k == "f":
+                    deliver_event_task(emit(CS_EVENT_SHAPES[arg % len(CS_EVENT_SHAPES)]))
+                elif k == "d":
+                    await deliver_event(emit(CS_EVENT_SHAPES[arg % len(CS_EVENT_SHAPES)]))
+                elif k == "b":
+                    src = s["events"] if s else []
+                    deliver_event_task(src[arg] if arg < len(src) else None)
+                elif k == "U":
+                    upgrade()
+                elif k == "y":
+                    net["delay"] = arg / 1000.0
+                elif k == "H":
+                    net["hold"] = True
+                elif k == "h":
+                    net["hold"] = False
+                    held, net["held"] = net["held"], []
+                    for arrive in held:
+                        arrive()
+                elif k == "t":
+                    await asyncio.sleep(arg / 1000.0)
                 elif k in "ra":
                     src = s["events"] if s else []
                     i = arg if k == "a" else len(src) - 1 - arg
@@ -1960,9 +2044,10 @@ def run_coap_session(loop, evs, seed=0):
                 else:
                     raise ValueError(ev)
                 await settle(loop)
-            for t in tasks:
+            stats["event datagrams still being rendered when the history ended"] += sum(1 for t in net["etasks"] if not t.done())
+            for t in tasks + net["etasks"]:
                 t.cancel()
-            await asyncio.gather(*tasks, return_exceptions=True)
+            await asyncio.gather(*(tasks + net["etasks"]), return_exceptions=True)
             await settle(loop)
     try:
         loop.run_until_complete(main())
@@ -2016,7 +2101,8 @@ def oracle_coap_session(rec):
             n = a2c.get(e[1])
             if n is not None and e[2] == 0 and tries:
                 zeroed.setdefault(n, []).append(pos)
-            tries.append(e)
+            if n is not None:
+                tries.append(e)  # (an event datagram rendered between the arrival of a response and its decryption is not part of the search)
         elif e[0] == "open":
             key, ct = e[1], e[3]
             if key in a2c:
@@ -2125,6 +2211,67 @@ def gen_coap_session(rng):
         elif t[0] in "su" and rng.random() < 0.5:
             evs.extend(rng.choice([["a0"], ["a0", "a1", "e"], ["r0"], ["r1", "e"]]))
     return evs
+
+
+CS_FLUSH = ["h", "t400", "e", "a0", "g0", "f0", "t400"]  # every answer arrives, everything in flight ends; then more traffic and a replay
+
+
+def coap_concurrent_histories(thorough=False):
+    """event datagrams rendered the way aiocoap renders them - one task per datagram, started in the order of arrival,
+    nobody waits - on a network where an answer takes time (y<ms>) or arrives only after the next events have (H .. h):
+    every shape of first event (records for characteristics the controller knows / the accessory has gained since) x a
+    second event x what else is in flight (nothing, a database read, populate, a read, a write, a pair-verify on the live
+    connection, a configuration-number change) x the controller's copy of the database older than / as new as the
+    accessory's; events spaced in time; waited-for deliveries in between"""
+    pre = ["s0", "e", "g0"]
+    shapes = range(len(CS_EVENT_SHAPES))
+    seconds = (0, 1, 3, 6) if thorough else (0, 3)
+    inflight = [[], ["L"], ["P"], ["g1"], ["p1"], ["W"], ["D4"], ["G", "s1"]] if thorough else [[], ["L"], ["g1"], ["W"]]
+    out = []
+    for mode in (["y20"], ["H"], ["y3"]):
+        for fl in inflight:
+            for a in shapes:
+                for b in seconds:
+                    out.append(pre + mode + fl + ["f%d" % a, "f%d" % b, "f0"] + CS_FLUSH)
+    for mode in (["y20"], ["H"]):
+        for a in shapes:
+            # the controller has read the database after the accessory gained the characteristics: every iid is known
+            out.append(pre + ["U", "L"] + mode + ["f%d" % a, "f0", "f3"] + CS_FLUSH)
+            # the accessory gained them, the controller has not looked yet
+            out.append(pre + ["U"] + mode + ["f%d" % a, "f0", "L", "f3", "f1"] + CS_FLUSH)
+            # events spaced in time: the second arrives while whatever the first started is half way
+            for gap in ("t1", "t25", "t45", "t70"):
+                out.append(pre + ["y20", "f%d" % a, gap, "f0", gap, "f1", "f%d" % a] + CS_FLUSH)
+            # a waited-for delivery and a replay behind an event that is still being rendered
+            out.append(pre + mode + ["f%d" % a, "d0", "b1", "d%d" % a, "b1", "f0"] + CS_FLUSH)
+            # the same datagram handed over twice at once (a duplicate on the network)
+            out.append(pre + mode + ["w", "b1", "b1", "f%d" % a, "b2", "b2", "f0"] + CS_FLUSH)
+            # the session ends / is replaced while events are being rendered
+            for op in ("K", "Z", "D1", "V", "T"):
+                out.append(pre + mode + ["f%d" % a, "f0", op, "f1", "g0", "f%d" % a] + CS_FLUSH)
+    return out
+
+
+def gen_coap_concurrent(rng):
+    """a random history of the same kind: events in tasks of their own and waited for, replays at once, requests and
+    database refreshes in flight, answers delayed / kept / lost, time passing in small steps, session-level operations"""
+    nshape = len(CS_EVENT_SHAPES)
+    weighted = (["f"] * 14 + ["d"] * 3 + ["b"] * 3 + ["t0", "t1", "t5", "t10", "t25", "t60", "t200"] * 2 + ["y0", "y3", "y20", "y20", "y150", "H", "H", "h", "h", "h"]
+                + ["g0", "g1", "G", "p0", "p1", "s1", "S", "u0", "L", "L", "P", "P", "l", "U", "U", "D4"] + ["e", "E", "w", "r0", "a0", "m", "x"]
+                + ["D0", "D1", "Z", "V", "W", "W", "K", "O", "N", "X", "Q", "T", "c"])
+    evs = [rng.choice(["s0", "e", "g0", "S", "p1"]) for _ in range(rng.randrange(1, 4))] + [rng.choice(["y20", "H", "y3", "y150"])]
+    for _ in range(rng.randrange(5, 24)):
+        t = rng.choice(weighted)
+        if t in ("f", "d"):
+            t += str(rng.randrange(nshape) if rng.random() < 0.7 else 0)
+        elif t == "b":
+            t += str(rng.randrange(6))
+        evs.append(t)
+        if t[0] in "ONXQ":
+            evs.append(rng.choice(["g0", "g1", "p2", "L", "G"]))
+        elif t[0] in "KZTD" and rng.random() < 0.7:
+            evs.extend(rng.choice([["g0"], ["L", "t100"], ["g1", "h", "t100"], ["p1"]]))  # a caller brings the session back: the events that follow have somewhere to go
+    return evs + CS_FLUSH
 
 
 def tok(ev):
@@ -2397,6 +2544,21 @@ def run(ctx: Ctx, driver: Driver):
         ctx.dist["ip-session:histories with coalesced reads"] += 1
         for sig, text in oracle_ip_session(rec):
             ctx.violation(sig, text, case)
+    # ------------- CoAP, whole sessions with the event datagrams rendered as concurrent tasks (as aiocoap does) on a network with latency
+    cseqs = coap_concurrent_histories(ctx.thorough())
+    for _ in range(ctx.budget(500, 6000)):
+        cseqs.append(gen_coap_concurrent(rng))
+    for k, evs in enumerate(cseqs):
+        case = {"stream": "coap-session", "events": evs, "seed": ctx.seed * 100003 + 90000 + k}
+        rec = run_coap_session(loop, evs, seed=case["seed"])
+        ctx.evaluations += 1
+        ctx.nontrivial.add(("coap-session", tuple(evs)))
+        account_coap_session(ctx, rec)
+        ctx.dist["coap-session:histories with event datagrams rendered concurrently / answers that take time"] += 1
+        for sig, text in oracle_coap_session(rec):
+            ctx.violation(sig, text, dict(case, signature=sig))
+        if k == len(cseqs) - 1:
+            ctx.sample(case)
     loop.close()
 
 
